@@ -382,14 +382,12 @@ class DiagLayer:
         for service in candidate_services:
             try:
                 decoded_messages.append(service.decode_message(message))
-            except DecodeError as e:
+            except DecodeError:
                 # check if the message can be decoded as a global
                 # negative response for the service
-                gnr_found = False
                 for gnr in self.global_negative_responses:
                     try:
                         decoded_gnr = gnr.decode(message)
-                        gnr_found = True
                         if not isinstance(decoded_gnr, dict):
                             odxraise(
                                 f"Expected the decoded value of a global "
@@ -405,8 +403,10 @@ class DiagLayer:
                     except DecodeError:
                         pass
 
-                if not gnr_found:
-                    raise e
+                # if the message can neither be decoded by the
+                # service nor as a global negative response, the
+                # service in question does not apply. The other
+                # candidate services must be considered anyway.
 
         if len(decoded_messages) == 0:
             raise DecodeError(
